@@ -478,12 +478,13 @@ func run(c *hl.Ctx) {
 	correlated(c)
 	mutation(c)
 	cube(c)
+	afterFail(c)
 	c.Rule("E3 bounded-exhaustive. NAL units: all 256 header bytes x sizes {1,2,3,255,256,257,65535,65536} (thorough: every size 1..1024 + 65534..65537). Records: profile, compatibility, level each over all 256 values (one at a time, per length size); " +
 		"jointly {0,66,100,255}^3 x lengthSizeMinusOne 0..3 x SPS count {0,1,2,31} x PPS count {0,1,2,255} x 3 small-size patterns (thorough: {0,1,66,100,254,255}^3, SPS counts {0,1,2,3,15,16,30,31}, PPS counts {0,1,2,3,127,128,254,255}); NAL sizes {1,2,255,256,65535} for one SPS / one PPS / both, per length size; " +
 		"all 256 first bytes of the first SPS and of the first PPS; (profile, level) pairs with derived compatibility and length size (quick: boundary rows/columns + diagonal, thorough: all 65536); 31 SPS and 255 PPS of 65535 bytes (thorough). Each record: ISO writer -> library reader -> library writer (byte-exact), and for compat=0 " +
 		"(the API cannot set it) API-built -> library writer == ISO writer, then library reader. Samples: length size 1..4 x all NAL size lists of length <= 3 (thorough 4) over the sizes fitting the prefix " +
 		"{1,2,255 | 256,65535 | 65536 | 16777215,16777216 (thorough, single)} + all 256 first header bytes, both directions byte-exact. " +
-		"Non-trivial = distinct case (hash of kind + leading bytes/sizes) whose every judged clause was exercised and held with at least one NAL unit or a full record." + mutationRule + correlatedRule + reuseRule + cubeRule)
+		"Non-trivial = distinct case (hash of kind + leading bytes/sizes) whose every judged clause was exercised and held with at least one NAL unit or a full record." + mutationRule + correlatedRule + reuseRule + cubeRule + afterFailRule)
 	c.Assume("the reference writer/parser (engine/ref/avcref, from ISO/IEC 14496-15 5.2.4.1.1 / 5.3.4.2 and 14496-10 7.3.1) is correct",
 		"payload bytes are one fixed position-dependent pattern with embedded 00 00 01",
 		"outside the unmarshal histories of reuse.go values are unmarshalled into fresh objects",
@@ -711,6 +712,10 @@ func replay(c *hl.Ctx, raw json.RawMessage) {
 	case "retention":
 		c.NShards = 1
 		retention(c)
+	case "afterfail":
+		var cs afterFailCase
+		json.Unmarshal(raw, &cs)
+		runAfterFail(c, &cs)
 	default:
 		panic("unknown replay part " + probe.Part)
 	}
